@@ -21,5 +21,6 @@ INVARIANT LawExtrasWellFormed
 INVARIANT LawUnmatched
 INVARIANT LawFineWellFormed
 INVARIANT LawFineOrders
+INVARIANT LawConf
 INVARIANT LawComputed
 CHECK_DEADLOCK FALSE
